@@ -61,6 +61,8 @@ KeySet ==
                                    <<97>>}                                                                  \* buckets  bucket/bkt1  a
     \* names the fs backends use for their own temporary / probe files: .gofakes3-upload.tmp  d/.gofakes3-upload.tmp  d/x  .modtime-resolution
     [] KeySetName = "hostile4" -> {<<46, 103, 111, 102, 97, 107, 101, 115, 51, 45, 117, 112, 108, 111, 97, 100, 46, 116, 109, 112>>, <<100, 47, 46, 103, 111, 102, 97, 107, 101, 115, 51, 45, 117, 112, 108, 111, 97, 100, 46, 116, 109, 112>>, <<100, 47, 120>>, <<46, 109, 111, 100, 116, 105, 109, 101, 45, 114, 101, 115, 111, 108, 117, 116, 105, 111, 110>>}
+    \* keys that are not valid UTF-8 (a lone 0xFF / 0xFE / Latin-1 0xE9, at the end and inside): r\xFFpt  r\xFEpt  l\xE9  d/\xE9x
+    [] KeySetName = "hostile5" -> {<<114, 255, 112, 116>>, <<114, 254, 112, 116>>, <<108, 233>>, <<100, 47, 233, 120>>}
     \* non-canonical keys (key-value backends keep them apart as byte strings)
     [] KeySetName = "dots"     -> {<<46>>, <<46, 46>>, <<97, 47, 46, 46, 47, 98>>, <<98>>, <<97, 47, 47, 98>>}  \* .  ..  a/../b  b  a//b
     \* keys made of the bytes of their bucket's name: b  bkt1  1/t
@@ -106,6 +108,9 @@ MetaA == [m1 |-> "A"]
 MetaB == [ct |-> "T", ce |-> "E", cd |-> "D", m2 |-> "B"]
 MetaC == [ct |-> "U", m2 |-> "C", m3 |-> "C"]      \* a copy that brings its own, different, metadata
 MetaE == [m1 |-> "", m2 |-> ""]                    \* user metadata sent with empty values
+\* values that look like the encoding markers of some storage layer (concretized as base64:..., percent escapes, a
+\* MIME encoded-word, JSON): they are data and come back as sent
+MetaF == [m1 |-> "B64", m2 |-> "PCT", m3 |-> "MIME", ct |-> "JSON"]
 
 \* every version id a client could know: the ones replies revealed
 KnownVids(s, b, k) == IF HasB(s, b) THEN {v.vid : v \in {x \in ToSet(Stack(s, b, k)) : ~x.nul /\ SubSeq(x.vid, 1, 1) # "?"}} ELSE {}
@@ -135,6 +140,8 @@ Ops(s) ==
 \cup (IF On("PutMetaB")     THEN {[op |-> "PutObject", b |-> b, k |-> k, body |-> bd, meta |-> MetaB, vid |-> NextVid(s)]
                                     : b \in Buckets, k \in WKeySet, bd \in BodySet} ELSE {})
 \cup (IF On("PutMetaE")     THEN {[op |-> "PutObject", b |-> b, k |-> k, body |-> bd, meta |-> MetaE, vid |-> NextVid(s)]
+                                    : b \in Buckets, k \in WKeySet, bd \in BodySet} ELSE {})
+\cup (IF On("PutMetaF")     THEN {[op |-> "PutObject", b |-> b, k |-> k, body |-> bd, meta |-> MetaF, vid |-> NextVid(s)]
                                     : b \in Buckets, k \in WKeySet, bd \in BodySet} ELSE {})
 \cup (IF On("PostMeta")     THEN {[op |-> "PostObject", b |-> b, k |-> k, body |-> bd, meta |-> MetaA, vid |-> NextVid(s)]
                                     : b \in Buckets, k \in WKeySet, bd \in BodySet} ELSE {})
